@@ -30,13 +30,16 @@ RULE = (
     "through the library's id source, on v1, v2c and the five v3 levels. Every datagram seen at "
     "the seam is decoded by the independent strict decoder and compared with the intent "
     "(version, community | v3 header+USM parameters+scoped PDU, PDU type, error fields / "
+    "non-repeaters+max-repetitions, OIDs in order, NULL / typed SET values); 30% of the clients "
+    "start with other credentials (any family) and reach the intended ones through configure() "
+    "or inside a reconfigure() block. Remaining fields: "
     "non-repeaters+max-repetitions, OIDs in order, NULL / typed SET values). The request-id is "
     "decided behaviourally: an agent echoing the decoded id must be accepted, one answering "
     "id+1 refused. Non-trivial: >=1 datagram checked; distinct by (op, level, arg classes)."
 )
 ASSUMPTIONS = [
     "the first datagram of a fresh v3 client is the discovery probe (C12 owns its content); it must still decode under the strict decoder",
-    "msgFlags: only the auth/priv bits are compared here, the reportable bit belongs to C10",
+    "msgFlags: auth/priv bits must equal the credentials' level and confirmed-class PDUs must carry the reportable bit (also monitored by C10 at the agent)",
     "an API call that refuses to encode its arguments (raises before anything is sent) emits nothing and is not a violation of this property",
 ]
 REQUIRED_MONITORS = ("datagrams_decoded", "datagrams_match_intent", "echo_accepted", "id_plus_one_refused")
@@ -164,6 +167,8 @@ def decode_request(ctx, rawbytes):
             problems.append("msgData is not a plaintext scoped PDU")
             return msg, None, problems
         scoped = msg["scoped"]
+    if scoped["pdu"]["type"] in (ber.PDU_GET, ber.PDU_GETNEXT, ber.PDU_GETBULK, ber.PDU_SET) and not msg["flags"] & 4:
+        problems.append("confirmed-class PDU 0x%02x in a message without the reportable flag (msgFlags=%d)" % (scoped["pdu"]["type"], msg["flags"]))
     want_engine = ctx.ctx_engine or agent.engine_id
     if scoped["ctx_engine"] != want_engine:
         problems.append("contextEngineID %s, intended %s" % (scoped["ctx_engine"].hex(), want_engine.hex()))
@@ -224,7 +229,7 @@ def classify(problems, pdu, oids):
     return None
 
 
-def run_case(R, level, op, args, community="public", ctx_name=b"", ctx_engine=b"", rid=None, rid_patched=None, label=""):
+def run_case(R, level, op, args, community="public", ctx_name=b"", ctx_engine=b"", rid=None, rid_patched=None, label="", via=None):
     from .walkcommon import enc_db
 
     db = args.get("db") or {(1, 3, 6, 1, 2, 1, 1, i, 0): ("int", i) for i in range(1, 6)}
@@ -237,6 +242,15 @@ def run_case(R, level, op, args, community="public", ctx_name=b"", ctx_engine=b"
     case = {"level": level, "op": op, "args": rig.jsonable({k: v for k, v in args.items() if k != "db"}), "db": enc_db(db) if "db" in args else None,
             "community": community, "ctx_name": rig.jsonable(ctx_name), "ctx_engine": rig.jsonable(ctx_engine), "rid": rid, "rid_patched": rid_patched, "label": label}
     c = w.client
+    if via is not None:
+        # the client starts life with OTHER credentials and is switched to the
+        # intended ones by configure() / inside a reconfigure() block
+        from puresnmp import Client as _Client
+
+        c = _Client("192.0.2.1", rig.credentials_for(via[1], community="initial"), sender=w.seam, **ckw)
+        if via[0] == "configure":
+            c.configure(credentials=w.creds)
+    case["via"] = list(via) if via else None
     saved_now = env.CLOCK.now
     saved = {}
     if rid is not None:
@@ -254,32 +268,36 @@ def run_case(R, level, op, args, community="public", ctx_name=b"", ctx_engine=b"
             return out
         w.agent.pdu_hook = hook
     oids = [tuple(o) for o in args.get("oids", [])]
+    import contextlib
+
+    block = c.reconfigure(credentials=w.creds) if via is not None and via[0] == "reconfigure" else contextlib.nullcontext()
     try:
         try:
-            if op == "get":
-                res = rig.outcome(lambda: drive(c.get(OID(oids[0]))))
-            elif op == "multiget":
-                res = rig.outcome(lambda: drive(c.multiget([OID(o) for o in oids])))
-            elif op == "getnext":
-                res = rig.outcome(lambda: drive(c.getnext(OID(oids[0]))))
-            elif op == "multigetnext":
-                res = rig.outcome(lambda: drive(c.multigetnext([OID(o) for o in oids])))
-            elif op == "set":
-                res = rig.outcome(lambda: drive(c.set(OID(oids[0]), rig.from_tuple(args["values"][0]))))
-            elif op == "multiset":
-                res = rig.outcome(lambda: drive(c.multiset({OID(o): rig.from_tuple(v) for o, v in zip(oids, args["values"])})))
-            elif op == "bulkget":
-                res = rig.outcome(lambda: drive(c.bulkget([OID(o) for o in oids[: args["nscal"]]], [OID(o) for o in oids[args["nscal"] :]], max_list_size=args["maxrep"])))
-            elif op == "walk":
-                res = rig.outcome(lambda: drive_agen(c.walk(OID(oids[0])), limit=300))
-            elif op == "bulkwalk":
-                res = rig.outcome(lambda: drive_agen(c.bulkwalk([OID(o) for o in oids], bulk_size=args["maxrep"]), limit=300))
-            elif op == "table":
-                res = rig.outcome(lambda: drive(c.table(OID(oids[0]))))
-            elif op == "bulktable":
-                res = rig.outcome(lambda: drive(c.bulktable(OID(oids[0]), bulk_size=args["maxrep"])))
-            else:
-                raise ValueError(op)
+          with block:
+              if op == "get":
+                  res = rig.outcome(lambda: drive(c.get(OID(oids[0]))))
+              elif op == "multiget":
+                  res = rig.outcome(lambda: drive(c.multiget([OID(o) for o in oids])))
+              elif op == "getnext":
+                  res = rig.outcome(lambda: drive(c.getnext(OID(oids[0]))))
+              elif op == "multigetnext":
+                  res = rig.outcome(lambda: drive(c.multigetnext([OID(o) for o in oids])))
+              elif op == "set":
+                  res = rig.outcome(lambda: drive(c.set(OID(oids[0]), rig.from_tuple(args["values"][0]))))
+              elif op == "multiset":
+                  res = rig.outcome(lambda: drive(c.multiset({OID(o): rig.from_tuple(v) for o, v in zip(oids, args["values"])})))
+              elif op == "bulkget":
+                  res = rig.outcome(lambda: drive(c.bulkget([OID(o) for o in oids[: args["nscal"]]], [OID(o) for o in oids[args["nscal"] :]], max_list_size=args["maxrep"])))
+              elif op == "walk":
+                  res = rig.outcome(lambda: drive_agen(c.walk(OID(oids[0])), limit=300))
+              elif op == "bulkwalk":
+                  res = rig.outcome(lambda: drive_agen(c.bulkwalk([OID(o) for o in oids], bulk_size=args["maxrep"]), limit=300))
+              elif op == "table":
+                  res = rig.outcome(lambda: drive(c.table(OID(oids[0]))))
+              elif op == "bulktable":
+                  res = rig.outcome(lambda: drive(c.bulktable(OID(oids[0]), bulk_size=args["maxrep"])))
+              else:
+                  raise ValueError(op)
         except rig.BudgetExceeded:
             res = ("exc", "budget")
     finally:
@@ -289,7 +307,7 @@ def run_case(R, level, op, args, community="public", ctx_name=b"", ctx_engine=b"
 
     labels = tuple(sorted(set(args.get("labels", ()))))
     reqs = w.seam.requests
-    fp = ("c05", op, level, labels, tuple(v[0] for v in args.get("values", ())), len(oids), len(community) > 127, len(ctx_name), len(ctx_engine), rid, rid_patched, plus_one)
+    fp = ("c05", op, level, labels, tuple(v[0] for v in args.get("values", ())), len(oids), len(community) > 127, len(ctx_name), len(ctx_engine), rid, rid_patched, plus_one, via)
     R.case(fp, bool(reqs), sample={**case, "datagram0": reqs[-1].hex()[:400] if reqs else None} if R.evaluations % 997 == 0 else None)
     if not reqs:
         R.mon["refused_to_encode"] += 1
@@ -421,7 +439,10 @@ def run(R):
             rid = rng.choice(RID_SWEEP)
         elif r < 0.45:
             rid_patched = rng.choice(RID_PATCHED)
-        run_case(R, level, op, args, community, ctx_name, ctx_engine, rid, rid_patched)
+        via = None
+        if rng.random() < 0.3:
+            via = (rng.choice(("configure", "reconfigure")), rng.choice([lv for lv in ("v1", "v2c", "v3-noauth", "v3-md5", "v3-sha1-priv") if lv != level]))
+        run_case(R, level, op, args, community, ctx_name, ctx_engine, rid, rid_patched, via=via)
     # behavioural id check on an operation that cannot fail for other reasons
     if R.shard == 0 or R.tier == "thorough":
         base = {"oids": [(1, 3, 6, 1, 2, 1, 1, 1, 0)], "labels": ["fixed"]}
@@ -466,4 +487,4 @@ def replay(R, v):
         args["values"] = [(val[0], val[1]) for val in args["values"]]
     if c.get("db"):
         args["db"] = dec_db(c["db"])
-    run_case(R, c["level"], c["op"], args, c["community"], fix(c["ctx_name"]) or b"", fix(c["ctx_engine"]) or b"", c["rid"], c["rid_patched"], "replay")
+    run_case(R, c["level"], c["op"], args, c["community"], fix(c["ctx_name"]) or b"", fix(c["ctx_engine"]) or b"", c["rid"], c["rid_patched"], "replay", via=tuple(c["via"]) if c.get("via") else None)
